@@ -4,6 +4,7 @@ import (
 	"bytes"
 	"context"
 	"fmt"
+	"math"
 	"math/rand"
 	"runtime"
 	"strings"
@@ -59,6 +60,36 @@ func TestC16(t *testing.T) {
 			if p != nil {
 				r.Violation("c16-panic-or-deadlock", fmt.Sprintf("policy=%q size=%d: %v", pol, size, p), nil)
 			}
+		}
+	}
+	// session-cache durations at the far end of the range ("never expire"): the same programs, shorter, with
+	// SessionCacheDuration = 250 years and = the largest time.Duration
+	for _, dur := range []time.Duration{250 * 365 * 24 * time.Hour, time.Duration(math.MaxInt64), time.Duration(math.MaxInt64) - time.Millisecond} {
+		journal(fmt.Sprintf("C16 programs with session cache duration %s", dur))
+		p := inBubble(t, func() {
+			w := world.New("memguard")
+			defer w.Close()
+			time.Sleep(13 * time.Second)
+			sessprog.EnumeratePrograms(ev.Pick(3, 4), func(prog []sessprog.Op) {
+				if failed > 20 {
+					return
+				}
+				sig, detail, st := sessprog.RunProgram(w, "", 2, prog, dur)
+				r.Eval(1)
+				r.Count("programs_with_huge_duration", 1)
+				if st[2] >= 2 {
+					r.Distinct(fmt.Sprintf("huge|%s|%s", dur, sessprog.ProgString(prog)))
+				}
+				if strings.HasPrefix(sig, "INCONCLUSIVE:") {
+					r.Inconclusive(detail)
+				} else if sig != "" {
+					failed++
+					r.Violation(sig, detail+fmt.Sprintf(" (session cache duration %s)", dur), map[string]any{"engine": "conc/c16", "duration": dur.String(), "program": sessprog.ProgString(prog)})
+				}
+			})
+		})
+		if p != nil {
+			r.Violation("c16-panic-or-deadlock", fmt.Sprintf("session cache duration %s: %v", dur, p), nil)
 		}
 	}
 	r.Exhaustive(true)
